@@ -22,6 +22,7 @@ import json
 import sys
 import vlib
 import c01_deep
+import c01_surv
 import restartlib
 
 RULE = ("TLC explores every interleaving of reads, barrier deliveries, alignment, acks (any order), publication, "
@@ -43,7 +44,7 @@ BUDGET = dict(quick=60, thorough=600)
 
 BASE = dict(W=2, NSplits=2, NRecs=2, KeyDigits=1221, OwnerDigits=12, B=1, MaxCkpt=2, MaxKills=2, KillJob=True,
             MaxLen=100000, StopAtDone=False, KillDilution=8, Dev_AssignUnsorted=False,
-            Rescale="@{}", G=0, GroupDigits=0, Overlap=False, PubDilution=1)   # no rescale, no overlapping publication: c01_deep.py
+            Rescale="@{}", G=0, GroupDigits=0, Overlap=False, PubDilution=1, Survive=False, Dev_LatePublication=False)   # no rescale, no overlapping publication: c01_deep.py
 
 
 def exhaustive(c, consts, label, timeout=1500):
@@ -161,6 +162,7 @@ def run(c):
     stage(c, traces, c, TRACE, 4, 60 if quick else 400, c.seed * 7 + 1, "2 workers, 3x6 records", True)
     stage(c, traces, c, dict(TRACE, W=3, NSplits=4, NRecs=8, OwnerDigits=123123), 6, 20 if quick else 300, c.seed * 7 + 2, "3 workers, 4x8 records")
     c01_deep.run_deep(c, sys.modules[__name__])   # dkv flush/compaction underneath, rescale at recovery, overlapping publications
+    c01_surv.run_surv(c, sys.modules[__name__])   # only the killed workers are replaced, the survivors are redeployed in place
     c.assumptions += [
         "one assembly per job in the Recovery.tla arms: a restart is a new Job + fresh workers over the same storage; of a re-assembly inside "
         "a living job only the one-cut condition is checked here (restart arm), the rest is C15",
